@@ -496,19 +496,30 @@ func instrumentFile(fset *token.FileSet, af *ast.File, src []byte, pkgVars map[s
 			case *ast.CommClause:
 				doList(v.Body)
 			case *ast.GoStmt:
-				// go f(a, b)  ->  go zzsimrt.GoCall(zzsimrt.Spawn(), f, a, b)
+				// go f(a, b)  ->  go zzsimrt.GoCallL(f, a, b, zzsimrt.Spawn())
 				// (function value and arguments are still evaluated by the
 				// parent; the new goroutine becomes a simulated client)
 				if v.Call.Ellipsis.IsValid() {
 					note(v.Pos(), "a go statement with a variadic spread")
 					break
 				}
-				ins = append(ins, insertion{off(v.Call.Fun.Pos()), "zzsimrt.GoCall(zzsimrt.Spawn(), ", 0})
+				// (Spawn() comes LAST: if evaluating the function value or an
+				// argument panics, as the go statement's operands may, no client
+				// id has been reserved for a goroutine that will never start)
+				ins = append(ins, insertion{off(v.Call.Fun.Pos()), "zzsimrt.GoCallL(", 0})
+				ins = append(ins, insertion{off(v.Call.Lparen), ", ", 1})
 				sep := ""
 				if len(v.Call.Args) > 0 {
 					sep = ", "
+					k := off(v.Call.Rparen) - 1
+					for k > 0 && (src[k] == ' ' || src[k] == '\t' || src[k] == '\n' || src[k] == '\r') {
+						k--
+					}
+					if src[k] == ',' {
+						sep = " "
+					}
 				}
-				ins = append(ins, insertion{off(v.Call.Lparen), sep, 1})
+				ins = append(ins, insertion{off(v.Call.Rparen), sep + "zzsimrt.Spawn()", 0})
 				points++
 			case *ast.LabeledStmt:
 				if sel, ok := v.Stmt.(*ast.SelectStmt); ok {
